@@ -514,3 +514,76 @@ pub fn count_formers(t: &T, acc: &mut std::collections::BTreeMap<String, u64>) {
         _ => {}
     }
 }
+
+
+/// EXHAUSTIVE enumeration of the terms with exactly `size` nodes under `depth` enclosing binders over a
+/// small alphabet: variables 1..=depth and one free index, lam, app, delay, force, error, three constants,
+/// three builtins (one per force-count class), constr tag 0/1 with ≤ 2 fields, case with ≤ 2 branches.
+pub fn enumerate(size: usize, depth: usize, memo: &mut std::collections::HashMap<(usize, usize), Rc<Vec<T>>>) -> Rc<Vec<T>> {
+    if let Some(v) = memo.get(&(size, depth)) {
+        return v.clone();
+    }
+    let mut out: Vec<T> = vec![];
+    if size == 1 {
+        for i in 1..=depth + 1 {
+            out.push(var(i));
+        }
+        out.push(Term::Error);
+        out.push(con(Constant::Integer(BigInt::from(0))));
+        out.push(con(Constant::Integer(BigInt::from(7))));
+        out.push(con(Constant::Bool(true)));
+        out.push(Term::Builtin(F::AddInteger));
+        out.push(Term::Builtin(F::IfThenElse));
+        out.push(Term::Builtin(F::HeadList));
+        out.push(Term::Constr { tag: 0, fields: vec![] });
+        out.push(Term::Constr { tag: 1, fields: vec![] });
+    } else {
+        for t in enumerate(size - 1, depth + 1, memo).iter() {
+            out.push(lam(t.clone()));
+        }
+        for t in enumerate(size - 1, depth, memo).iter() {
+            out.push(delay(t.clone()));
+            out.push(force(t.clone()));
+            out.push(Term::Constr { tag: 0, fields: vec![t.clone()] });
+            out.push(Term::Constr { tag: 1, fields: vec![t.clone()] });
+            out.push(Term::Case { constr: Rc::new(t.clone()), branches: vec![] });
+        }
+        if size >= 3 {
+            for a in 1..=(size - 2) {
+                let b = size - 1 - a;
+                let xs = enumerate(a, depth, memo);
+                let ys = enumerate(b, depth, memo);
+                for x in xs.iter() {
+                    for y in ys.iter() {
+                        out.push(app(x.clone(), y.clone()));
+                        out.push(Term::Constr { tag: 0, fields: vec![x.clone(), y.clone()] });
+                        out.push(Term::Case { constr: Rc::new(x.clone()), branches: vec![y.clone()] });
+                    }
+                }
+            }
+        }
+        if size >= 4 {
+            for a in 1..=(size - 3) {
+                for b in 1..=(size - 2 - a) {
+                    let c = size - 1 - a - b;
+                    if c == 0 {
+                        continue;
+                    }
+                    let xs = enumerate(a, depth, memo);
+                    let ys = enumerate(b, depth, memo);
+                    let zs = enumerate(c, depth, memo);
+                    for x in xs.iter() {
+                        for y in ys.iter() {
+                            for z in zs.iter() {
+                                out.push(Term::Case { constr: Rc::new(x.clone()), branches: vec![y.clone(), z.clone()] });
+                            }
+                        }
+                    }
+                }
+            }
+        }
+    }
+    let rc = Rc::new(out);
+    memo.insert((size, depth), rc.clone());
+    rc
+}
